@@ -37,7 +37,7 @@ Record fork := { f_pc : nat; f_stk : list sv; f_scopes : list frame; f_off : nat
 
 (* state that popfork does not restore, besides vars and lbl: the ghost push counter and the locals
    (callpc, index) of Next that a call instruction hands to the opscope it jumps to *)
-Record gx := { ctr : nat; creg : nat * list frame }.
+Record gx := { ctr : nat; creg : option nat * list frame }.   (* callpc = -1 (opcallrec) is None *)
 
 Record mem := { stk : list sv; scopes : list frame; forks : list fork; vars : list sv; lbl : nat;
                 offset : nat; gxs : gx }.
@@ -228,22 +228,35 @@ Definition step (s : state) : outcome :=
             | SPc p sc' :: r =>
                 (* pc, callpc, index = xs[0], pc, xs[1] ; goto loop *)
                 Next (Run p bt e {| stk := r; scopes := scopes m; forks := forks m; vars := vars m; lbl := lbl m;
-                                    offset := offset m; gxs := {| ctr := ctr (gxs m); creg := (pc, sc') |} |})
+                                    offset := offset m; gxs := {| ctr := ctr (gxs m); creg := (Some pc, sc') |} |})
             | _ => Stuck
             end
         | Iscope id nv na =>
-            (* entered through a call that set the locals (callpc, index).  callpc >= 0 always here (opcallrec is
-               not modelled), so saveindex = scopes.index in both branches of the Go code *)
-            let '(callpc, idx) := creg (gxs m) in
+            (* entered through a call that set the locals (callpc, index) *)
+            let '(cpc, idx) := creg (gxs m) in
             let outer := match idx with
                          | Frame i _ _ _ _ out :: _ => if Nat.eqb i id then out else idx
                          | [] => []
                          end in
-            let fr := Frame id (offset m) callpc (ctr (gxs m)) (scopes m) outer in
-            let off := offset m + nv in
-            cont {| stk := stk m; scopes := fr :: scopes m; forks := forks m;
-                    vars := if length (vars m) <? off then vars m ++ repeat (SV VNull) (2 * off - length (vars m)) else vars m;
-                    lbl := lbl m; offset := off; gxs := {| ctr := S (ctr (gxs m)); creg := creg (gxs m) |} |}
+            let enter callpc save off0 :=
+              let fr := Frame id off0 callpc (ctr (gxs m)) save outer in
+              let off := off0 + nv in
+              cont {| stk := stk m; scopes := fr :: save; forks := forks m;
+                      vars := if length (vars m) <? off then vars m ++ repeat (SV VNull) (2 * off - length (vars m)) else vars m;
+                      lbl := lbl m; offset := off; gxs := {| ctr := S (ctr (gxs m)); creg := creg (gxs m) |} |} in
+            match cpc with
+            | Some callpc =>
+                (* callpc >= 0: saveindex = scopes.index in both branches of the Go code *)
+                enter callpc (scopes m) (offset m)
+            | None =>
+                (* opcallrec (index = scopes.index, callpc < 0): callpc, saveindex = env.popscope() *)
+                match scopes m with
+                | Frame _ off' rpc' stamp' save' _ :: _ =>
+                    let free := match forks m with [] => true | f :: _ => f_ctr f <=? stamp' end in
+                    enter rpc' save' (if free then off' else offset m)
+                | [] => Stuck
+                end
+            end
         | Iret =>
             if bt then brk e m else
             match scopes m with
@@ -256,7 +269,7 @@ Definition step (s : state) : outcome :=
                         | SV v :: r =>
                             Emit v (Run rpc true None
                               {| stk := r; scopes := []; forks := forks m; vars := vars m; lbl := lbl m; offset := off';
-                                 gxs := {| ctr := ctr (gxs m); creg := (length code - 1, []) |} |})
+                                 gxs := {| ctr := ctr (gxs m); creg := (Some (length code - 1), []) |} |})
                         | _ => Stuck
                         end
                 | _ => Next (Run (S rpc) bt e
@@ -265,6 +278,15 @@ Definition step (s : state) : outcome :=
                 end
             | [] => Stuck
             end
+        | Icallf p =>
+            (* opcall with a pc: pc, callpc, index = v, pc, env.scopes.index ; goto loop *)
+            if bt then brk e m else
+            Next (Run p bt e {| stk := stk m; scopes := scopes m; forks := forks m; vars := vars m; lbl := lbl m;
+                                offset := offset m; gxs := {| ctr := ctr (gxs m); creg := (Some pc, scopes m) |} |})
+        | Icallrec p =>
+            (* opcallrec: pc, callpc, index = v, -1, env.scopes.index ; goto loop (no backtrack test) *)
+            Next (Run p bt e {| stk := stk m; scopes := scopes m; forks := forks m; vars := vars m; lbl := lbl m;
+                                offset := offset m; gxs := {| ctr := ctr (gxs m); creg := (None, scopes m) |} |})
         | Iiter =>
             match e with
             | Some _ => brk e m
@@ -317,6 +339,6 @@ Fixpoint run (fuel : nat) (s : state) : list jv * ending :=
 (* env.execute: push the input; pc = 0; the locals of Next: callpc = len(codes)-1, index = -1 *)
 Definition init (v : jv) : state :=
   Run 0 false None {| stk := [SV v]; scopes := []; forks := []; vars := []; lbl := 0; offset := 0;
-                      gxs := {| ctr := 0; creg := (length code - 1, []) |} |}.
+                      gxs := {| ctr := 0; creg := (Some (length code - 1), []) |} |}.
 
 End VM.
